@@ -34,14 +34,22 @@ var lockFreePoints = map[string]bool{
 	"persist.afterBoltCommit": true, "persist.afterBoltSync": true, "persist.beforeNotifyWaiters": true, "persist.afterNotifyWaiters": true,
 	"persist.memMerge.afterFiles": true, "persist.memMerge.afterIntroduce": true,
 	"merge.afterFileWritten": true, "merge.beforeIntroduce": true, "merge.afterIntroduce": true,
-	"purge.beforeBoltDelete": true, "purge.afterBoltCommit": true,
+	"purge.beforeBoltDelete": true, "purge.afterBoltCommit": true, "purge.begin": true, "purge.end": true,
 }
 
 type hookDispatcher struct {
-	mu     sync.Mutex
-	plan   HookPlan
-	counts map[string]int
-	delays map[string]bool
+	mu      sync.Mutex
+	plan    HookPlan
+	counts  map[string]int
+	delays  map[string]bool
+	onPoint func(point string) // in-process observers (set with SetOnPoint)
+}
+
+// SetOnPoint registers an in-process observer called at every hook point (nil clears it).
+func SetOnPoint(f func(point string)) {
+	hookD.mu.Lock()
+	hookD.onPoint = f
+	hookD.mu.Unlock()
 }
 
 var hookD = &hookDispatcher{counts: map[string]int{}}
@@ -51,7 +59,11 @@ func (h *hookDispatcher) call(point string) {
 	h.counts[point]++
 	n := h.counts[point]
 	plan := h.plan
+	obs := h.onPoint
 	h.mu.Unlock()
+	if obs != nil {
+		obs(point)
+	}
 	switch plan.Mode {
 	case "crash":
 		if point == plan.CrashPoint && n == plan.CrashK {
